@@ -138,6 +138,16 @@ class DeckGen:
             return 0, None, None
         mat = rng.choice([1, 1, 2, 3, 4, 5])
         pal = self.palette.setdefault(mat, [])
+        if not pal and rng.random() < 0.3:
+            # two densities that agree to six significant digits and differ beyond
+            neg = rng.random() < 0.6
+            base = gen_number(rng, negative=neg, wild=self.wild)
+            stem = rng.choice(['41234', '04127', '99999', '50000'])
+            last = rng.randrange(1, 8)
+            ip = base[1] if base[1] not in ('', '0') else '1' + base[1]
+            for digit in (last, last + 1):
+                pal.append((base[0], ip, stem + str(digit), base[3]))
+            self.features.add('near-twin-densities')
         if not pal or (len(pal) < 3 and rng.random() < 0.35):
             neg = rng.random() < 0.6
             number = gen_number(rng, negative=neg, wild=self.wild)
@@ -410,6 +420,10 @@ DENSITY_POOL = ['-1.0', '-1.00', '-2.7', '-2.70', '-2.7e0', '0.0602', '6.02-2',
                 '2.50', '2.5', '-1.50e3', '-1.5e3', '3+0', '1.5-0', '-0.0', '-0']
 
 
+NEAR_TWINS = [('-10.41234', '-10.41235'), ('6.408751e-2', '6.408752e-2'),
+              ('-2.7000001', '-2.7000002'), ('1.2345678e+1', '12.345679')]
+
+
 def gen_cells(rng, n_univ=None, malformed=False):
     '''Abstract dictionary {key: dict(mat, dens, imp, univ, fill, origin)} with
     acyclic fills (cyclic ones when `malformed`).'''
@@ -433,4 +447,12 @@ def gen_cells(rng, n_univ=None, malformed=False):
         imp = rng.choice([1, 1, 1, 0, 2, -1])
         cells[key] = {'mat': mat, 'dens': dens, 'imp': imp, 'univ': univ,
                       'fill': fill, 'origin': []}
+    if rng.random() < 0.25:
+        # two cells of one material whose densities agree to six significant
+        # digits and differ beyond
+        nonvoid = [c for c in cells.values() if int(c['mat']) != 0]
+        if len(nonvoid) >= 2:
+            a, b = rng.sample(nonvoid, 2)
+            b['mat'] = a['mat']
+            a['dens'], b['dens'] = rng.choice(NEAR_TWINS)
     return cells
